@@ -6,6 +6,8 @@
 EXTENDS Integers, Sequences, FiniteSets, TLC, Json
 G == INSTANCE Grammar
 KF == INSTANCE KnownFindings
+Q == INSTANCE Sql
+Sem == INSTANCE Semantics
 
 CONSTANTS ResFile, VerdictFile, Prop, Shards
 Groups == ndJsonDeserialize(ResFile)
@@ -30,12 +32,13 @@ C07(g) == LET base == g.cases[1].res
           IN [i \in DOMAIN g.cases |-> chk(g.cases[i])]
 
 \* C09: whitespace, keyword case and redundant parentheses do not change the outcome
-C09(g) == LET base == g.cases[1].res
+C09(g) == LET one(c, base, r, tag) ==
+                   IF Ok(base) /\ ~Ok(r) THEN <<Fail("C09", c, "variant rejected" \o tag)>>
+                   ELSE IF Ok(base) /\ r.tree # base.tree THEN <<Fail("C09", c, "variant parses differently" \o tag)>>
+                   ELSE IF c.kind = "ws" /\ ~Ok(base) /\ Ok(r) THEN <<Fail("C09", c, "variant accepted, original rejected" \o tag)>>
+                   ELSE <<>>
               chk(c) == IF c.kind \notin {"paren","ws"} THEN <<>>
-                        ELSE IF Ok(base) /\ ~Ok(c.res) THEN <<Fail("C09", c, "variant rejected")>>
-                        ELSE IF Ok(base) /\ c.res.tree # base.tree THEN <<Fail("C09", c, "variant parses differently")>>
-                        ELSE IF c.kind = "ws" /\ ~Ok(base) /\ Ok(c.res) THEN <<Fail("C09", c, "variant accepted, original rejected")>>
-                        ELSE <<>>
+                        ELSE one(c, g.cases[1].res, c.res, "") \o one(c, g.cases[1].resdf, c.resdf, " (default field)")
           IN [i \in DOMAIN g.cases |-> chk(g.cases[i])]
 
 \* C10: all-or-nothing results, Validate and the independent shape check
@@ -72,7 +75,28 @@ C01(g) == LET one(c, r, tag) ==
                 \o (IF Work(r) THEN <<>> ELSE <<Fail("C01", c, "parser work not linear in the tokens" \o tag)>>)
           IN [i \in DOMAIN g.cases |-> one(g.cases[i], g.cases[i].res, "") \o one(g.cases[i], g.cases[i].resdf, " (default field)")]
 
-Judge(g) == CASE Prop = "C05" -> C05(g) [] Prop = "C07" -> C07(g) [] Prop = "C09" -> C09(g)
+\* C03, structure level: the SQL of a compound query is the same Boolean combination of its leaves as the
+\* query's own structure (PostgreSQL's precedence decides how the text is read); rows = one probe per leaf column
+C03(g) == LET chk(c) ==
+                IF c.kind \notin {"min","paren","juxt"} \/ ~Sem!Filterable(c.expect) THEN <<>>
+                ELSE IF c.sql.inline.out # "ok" THEN <<Fail("C03", c, "ToPostgres failed on a filterable query")>>
+                ELSE IF ~(c.sql.inline.read.pg_ok /\ c.sql.inline.read.frame_ok) THEN <<Fail("C03", c, "PostgreSQL does not read the text as one WHERE expression")>>
+                ELSE IF \A row \in Sem!Rows(c.expect) : Q!TWellTyped(c.sql.inline.read.ast, row)
+                                                        /\ Q!TEval(c.sql.inline.read.ast, row) = Sem!EvalTree(c.expect, row) THEN <<>>
+                ELSE <<Fail("C03", c, "inline SQL is not the Boolean combination the query means")>>
+          IN [i \in DOMAIN g.cases |-> chk(g.cases[i])]
+\* C04, structure level: same success, placeholders = parameters in order, substitution gives the inline predicate
+C04(g) == LET chk(c) ==
+                IF c.kind \notin {"min","paren","juxt"} \/ c.sql.inline.out # "ok" THEN <<>>
+                ELSE IF c.sql.param.out # "ok" THEN <<Fail("C04", c, "ToPostgres succeeds but ToParameterizedPostgres does not")>>
+                ELSE IF ~(c.sql.param.read.pg_ok /\ c.sql.param.read.nplace = Len(c.sql.param.params)
+                          /\ Q!ParamsOf(c.sql.param.read.ast) = [i \in 1..Len(c.sql.param.params) |-> i])
+                     THEN <<Fail("C04", c, "placeholders and parameters do not correspond one to one")>>
+                ELSE IF Q!SameAst(Q!Subst(c.sql.param.read.ast, c.sql.param.params), c.sql.inline.read.ast) THEN <<>>
+                ELSE <<Fail("C04", c, "substituting the parameters does not give the inline predicate")>>
+          IN [i \in DOMAIN g.cases |-> chk(g.cases[i])]
+
+Judge(g) == CASE Prop = "C03" -> C03(g) [] Prop = "C04" -> C04(g) [] Prop = "C05" -> C05(g) [] Prop = "C07" -> C07(g) [] Prop = "C09" -> C09(g)
               [] Prop = "C10" -> C10(g) [] Prop = "C11" -> C11(g) [] Prop = "C06" -> C06(g) [] Prop = "C01" -> C01(g)
 
 RECURSIVE Cat(_, _)
@@ -80,7 +104,8 @@ Cat(ss, i) == IF i > Len(ss) THEN <<>> ELSE ss[i] \o Cat(ss, i + 1)
 \* failures per group (a group has at most ~20 cases, so the recursion is shallow)
 GroupFails(g) == LET per == Judge(g) IN Cat(per, 1)
 Relevant(c) == CASE Prop = "C05" -> c.kind \in {"min","paren"} [] Prop = "C07" -> c.kind = "juxt"
-                 [] Prop = "C09" -> c.kind \in {"paren","ws"} [] Prop = "C06" -> c.kind # "ws" [] OTHER -> TRUE
+                 [] Prop = "C09" -> c.kind \in {"paren","ws"} [] Prop = "C06" -> c.kind # "ws"
+                 [] Prop \in {"C03","C04"} -> c.kind \in {"min","paren","juxt"} [] OTHER -> TRUE
 
 \* one TLC state per group, so the state count is the number of trees judged
 \* the file is judged in Shards independent behaviours (shard sh takes lines sh+1, sh+1+Shards, ...), which
